@@ -1,3 +1,4 @@
+import AM.Gen.Facts
 import AM.Proofs.AuditProcLemmas
 /-! # C15 — no audit record is skipped silently
 
@@ -249,6 +250,27 @@ theorem rejected_line_then_poll_stops (c : Cfg) (pre post : List In) (raw : Str)
     simp only [Prod.mk.injEq] at hrun
     obtain ⟨_, rfl, rfl⟩ := hrun
     exact ⟨rfl, by omega⟩
+
+/-! ### the error channel has a slot (regenerated fact)
+
+The model's `slot : Option PErr` stands for `reassemblerErrors`, into which the callback sends WITHOUT blocking.
+Such a send succeeds iff the loop of `Read` happens to be waiting in its `select` at that instant or the channel
+has room. The loop is not always waiting — it may be inside `tracker.RemoteLogin`, held up by the very callback
+that is about to fail — so the first error survives only because the channel has capacity. `AM.Gen.reassemblerErrorsCap`
+is read off `make(chan error, n)` in `Read` on every run. -/
+
+/-- a non-blocking send on a channel of capacity `cap` currently holding `len` values -/
+def trySend (cap len : Nat) (receiverWaiting : Bool) : Bool := receiverWaiting || decide (len < cap)
+
+/-- with the capacity found in the working tree the first error is accepted even while the loop is busy … -/
+theorem gen_error_slot : trySend Gen.reassemblerErrorsCap 0 false = true := by decide
+
+/-- the correspondence runs let "everything in flight expire" by waiting 3.2 s: that is longer than the reassembler's
+time-out plus one maintenance period as found in the working tree (nanoseconds) -/
+theorem gen_expiry_within_harness_wait : Gen.eventTimeout + Gen.reassemblerInterval ≤ 3200000000 := by decide
+
+/-- … and without a slot it would be dropped (the `default` arm), `Read` running on with the event lost -/
+theorem no_slot_drops_error : trySend 0 0 false = false := by decide
 
 /-- **The first correlator error is the one reported.** If `Read` returns a callback error, it is
 the first error the callback produced: later ones never replace it in the one-slot channel. -/
